@@ -29,7 +29,7 @@ func c01Round3(c *Ctx, cone []*ssa.Function) {
 			continue
 		}
 		name := fname(fn)
-		for _, b := range fn.Blocks {
+		for _, b := range blocksIP(fn) {
 			for _, in := range b.Instrs {
 				var addr ssa.Value
 				switch x := in.(type) {
